@@ -269,6 +269,7 @@ def make_strategy():
 
 def to_case(v):
     toks, lseed, cseed = v
+    cseed = family.cfg_seed(cseed)
     rng = random.Random(lseed)
     src, r = layout.render(toks, rng, 'C', dict(p_cmt=rng.choice([0.0, 0.05, 0.2]), p_nl_slot=rng.choice([0.05, 0.3])))
     crng = random.Random(cseed)
@@ -278,8 +279,9 @@ def to_case(v):
 
 def main(ctx):
     quick = ctx.tier == 'quick'
-    rng = random.Random(core.subseed(ctx.seed, 'c04'))
+    rng = random.Random(core.subseed(ctx.useed, 'c04'))
     _EX.update(family.exclusions(ctx))
+    family.set_tier(ctx)
     ctx.rule = ('case = (source, language, config with >= 1 mod_ option); judged when uncrustify exits 0; non-trivial = the code token '
                 'stream of the output differs from the input (an option fired); distinct by sha256(source, language, config)')
     ctx.assumptions = ['token kinds and directions per option are taken from the option documentation (table in checks/c04.py plan())',
@@ -291,7 +293,7 @@ def main(ctx):
     for rel, lang in files:
         src = corpus.read(rel)
         for i in range(ncfg):
-            r = random.Random(core.subseed(ctx.seed, 'corpus', rel, i))
+            r = random.Random(core.subseed(ctx.useed, 'corpus', rel, i))
             cases.append(family.Case(src, lang, draw_cfg(r, (0, 0.02, 0.05)[i % 3]), {'kind': 'corpus', 'file': rel, 'cfg_index': i}))
     # single-option sweep
     slice_ = []
